@@ -86,13 +86,13 @@ func rangeLabels(rs []Range, l map[string]bool) (longQ, zeroQ bool) {
 		if d > 3 {
 			longQ = true
 		}
-		if r.Q.Free == "" && r.Q.Tail != "" && r.Q.Milli > 0 && r.Q.Milli < 1000 {
+		if r.Q.Free == "" && r.Q.Tail != "" && r.Q.Milli < 1000 {
 			l["q with non-zero tail digits"] = true
 		}
 		if r.Q.NoLead && strings.HasPrefix(r.Q.Text(), ".") {
 			l["q without leading 0"] = true
 		}
-		if r.Q.Free == "" && r.Milli() == 0 {
+		if r.Q.Free == "" && r.Zero() {
 			zeroQ = true
 			l["q=0 range"] = true
 		}
@@ -131,14 +131,14 @@ func Classify(c Case) (bool, []string) {
 
 	// which (range, offer) pairs match, at which weight
 	type pair struct{ r, o int }
-	byQ := map[int][]pair{}
+	byQ := map[string][]pair{}
 	wild, exact := false, false
 	for oi, o := range c.Offers {
 		for ri, r := range c.Ranges {
-			if r.Milli() == 0 || !r.matches(o) {
+			if r.Zero() || !r.matches(o) {
 				continue
 			}
-			byQ[r.Milli()] = append(byQ[r.Milli()], pair{ri, oi})
+			byQ[r.Weight()] = append(byQ[r.Weight()], pair{ri, oi})
 			if r.specificity() == 2 {
 				exact = true
 			} else {
